@@ -278,9 +278,9 @@ def _template(ck: Checker, func_name: str, which: str) -> None:
     ck.add(f"{which}: S3 chain in maximum direction", is_const(cc[0].args[2], True) and is_const(cp[0].args[2], True), func, cc[0], f"maximum flags {unparse(cc[0].args[2])}, {unparse(cp[0].args[2])}",
            "chain(G,V) must mean 'the chosen value is >= V': weights value-predecessor then add up to the chosen value")
     # S4: the distinguishing tuple term must carry every group argument; anonymous group arguments cannot
-    nones = [n for n in find_nodes(func.node, lambda n: isinstance(n, ast.IfExp)) if "'_'" in unparse(n.test) and "none" in unparse(n.body)]
+    nones = [n for n in find_nodes(func.node, lambda n: isinstance(n, (ast.IfExp, ast.If))) if "'_'" in unparse(n.test) and "none" in unparse(n.body if isinstance(n, ast.IfExp) else n.body[0]) and (isinstance(n, ast.IfExp) or n.orelse)]
     for n in nones:
-        body = n.body  # type: ignore[attr-defined]
+        body = n.body if isinstance(n, ast.IfExp) else (n.body[0].value.args[0] if isinstance(n.body[0], ast.Expr) and isinstance(n.body[0].value, ast.Call) and n.body[0].value.args else n.body[0])  # type: ignore[attr-defined]
         is_var = isinstance(body, ast.Call) and unparse(body.func) == "Variable"
         ck.add(f"{which}: placeholder for an anonymous group argument is a constant, not a Variable", not is_var, func, n, f"placeholder `{unparse(body)}`",
                "Variable('none') prints as the constant `none` but is an unsafe variable in the AST handed to ProgramBuilder", rule="C13.lexical.none")
